@@ -16,6 +16,11 @@ func init() {
 	rv := "internal/native/riscv/"
 	la := "internal/native/loong64/"
 	register(&Property{ID: "C17", Run: runC17, Mutants: []Mutant{
+		{Name: "x64 [r13] with zero displacement loses its mandatory disp8", File: "internal/native/x64/p9x86/asm6.go", Old: "\t\tif v == 0 && base != REG_BP && base != REG_R13 {\n\t\t\tab.Put1(byte(0<<6 | reg[base]<<0 | r<<3))", New: "\t\tif v == 0 && base != REG_BP {\n\t\t\tab.Put1(byte(0<<6 | reg[base]<<0 | r<<3))", Expect: "x64-modrm-form"},
+		{Name: "x64 indexed [rbp+idx] assembled without displacement", File: "internal/native/x64/p9x86/asm6.go", Old: "\t\tif v == 0 && base != REG_BP && base != REG_R13 {\n\t\t\tab.Put1(byte(0<<6 | 4<<0 | r<<3))", New: "\t\tif v == 0 && base != REG_R13 {\n\t\t\tab.Put1(byte(0<<6 | 4<<0 | r<<3))", Expect: "x64-modrm-form"},
+		{Name: "x64 [r12] handled by the plain-register path", File: "internal/native/x64/p9x86/asm6.go", Old: "\tif base == REG_SP || base == REG_R12 {\n\t\tif v == 0 {", New: "\tif base == REG_SP {\n\t\tif v == 0 {", Expect: "x64-modrm-form"},
+		{Name: "loong64 lsbd of BSTRINS.D/BSTRPICK.D truncated to five bits", File: la + "encode.go", Old: "\t\tlsbd := uint32(arg.Rs3) & 0b_1_1_1111", New: "\t\tlsbd := uint32(arg.Rs3) & 0b_0_1_1111", Expect: "loong64-field-coverage"},
+		{Name: "loong64 si14 immediates masked to 13 bits", File: la + "encode.go", Old: "\t\tsi14 := arg.Imm & 0x3FFF", New: "\t\tsi14 := arg.Imm & 0x1FFF", Expect: "loong64-field-coverage"},
 		{Name: "loong64 two rows exchange their opcode values (own decoder still round-trips)", File: la + "a_out.go", Old: "AADD_D:        {mask: 0xffff8000, value: 0x00108000, op: AADD_D, fmt: OpFormatType_3R},", New: "AADD_D:        {mask: 0xffff8000, value: 0x00100000, op: AADD_D, fmt: OpFormatType_3R},", Expect: "loong64-reference-opcode :: row AADD_D"},
 		{Name: "riscv XOR gets OR's funct3 moved by one (own decoder still round-trips)", File: rv + "opcode.go", Old: "AXOR:    {Opcode: _OpBase_OP, ArgMarks: _ARG_RType, Funct3: 0b_100, Funct7: 0b_000_0000},", New: "AXOR:    {Opcode: _OpBase_OP, ArgMarks: _ARG_RType, Funct3: 0b_100, Funct7: 0b_000_0100},", Expect: "riscv-reference-opcode :: row AXOR"},
 		{Name: "riscv FLT.S loses its funct3", File: rv + "opcode.go", Old: "AFLT_S:     {Opcode: _OpBase_OP_FP, ArgMarks: _ARG_RType, Funct3: 0b_001, Funct7: 0b_101_0000},", New: "AFLT_S:     {Opcode: _OpBase_OP_FP, ArgMarks: _ARG_RType, Funct7: 0b_101_0000},", Expect: "riscv-reference-opcode :: row AFLT_S"},
@@ -98,7 +103,10 @@ func runC17(c *Ctx) {
 		"NOT decided: rows without a same-named reference row (listed in the notes), operand field positions against the reference, immediate range checks, pseudo-instruction expansion, ARM64 (encoder not implemented) and x86-64 (table-driven port of the Go assembler)."
 	c.Trusted = []string{"go/packages, go/types (x/tools v0.29.0)", "RISC-V base instruction format layouts (unprivileged ISA spec, ch. 2.2/2.3)", "bit-provenance engine (bitprov.go)"}
 	c.Exhaust = true
-	p := c.Load(LoadOpt{Light: true}, "./internal/native/riscv", "./internal/native/loong64")
+	p := c.Load(LoadOpt{Light: true}, "./internal/native/riscv", "./internal/native/loong64", "./internal/native/x64/p9x86")
+	if x := p.MustPkg("x64-modrm-form", "internal/native/x64/p9x86"); x != nil {
+		c17X64ModRM(c, p, x)
+	}
 	if rv := p.MustPkg("riscv-placement", "internal/native/riscv"); rv != nil {
 		c17Riscv(c, p, rv)
 	}
@@ -746,6 +754,26 @@ func c17Loong(c *Ctx, p *Prog, pk *packages.Package) {
 		}
 		sort.Strings(bad)
 		c.Check(len(bad) == 0, r5, f, loc, fmt.Sprintf("operand bits %#x: pairwise disjoint, outside the opcode mask of all %d rows", operandBits, len(byFmt[f])), "encoder arm "+f+": "+strings.Join(bad, "; "))
+		// every bit of the word is an opcode bit of the row or carries an operand bit: a gap is an operand field the
+		// encoder writes narrower than the format defines it (the top bits of the operand are dropped silently)
+		gapRows := map[uint64][]string{}
+		for _, r := range byFmt[f] {
+			if gap := ^(operandBits | r.Mask) & 0xFFFFFFFF; gap != 0 {
+				gapRows[gap] = append(gapRows[gap], r.As)
+			}
+		}
+		if len(gapRows) == 0 {
+			c.OK("loong64-field-coverage", f, loc, "opcode mask and operand bits cover the whole word in every row")
+		}
+		for gap, rows := range gapRows {
+			sort.Strings(rows)
+			construct := fmt.Sprintf("%s: bits %#x {%s}", f, gap, strings.Join(rows, ","))
+			if why, ok := laGapAllowed[fmt.Sprintf("%s %#x", f, gap)]; ok {
+				c.OK("loong64-field-coverage", construct, loc, "confirmed exception: "+why)
+				continue
+			}
+			c.Fail("loong64-field-coverage", construct, loc, fmt.Sprintf("encoder arm %s: bits %#x of the word are neither in the opcode mask of %s nor written from an operand: an operand field is encoded with fewer bits than the instruction has, so operand values that need the missing bits assemble to another encoding than an independent assembler produces (negative immediates lose their sign bits) without an error", f, gap, strings.Join(rows, ", ")))
+		}
 
 		// decoder arm
 		darm, has := decArms[f]
@@ -815,4 +843,11 @@ func c17Loong(c *Ctx, p *Prog, pk *packages.Package) {
 		c.Check(len(dbad) == 0, r6, f, dloc, "decoder arm reads every operand bit from where the encoder arm wrote it", "decoder arm "+f+" vs encoder arm: "+strings.Join(dbad, "; "))
 	}
 	c.Min(r5, "loong64 formats with table rows", nfmt, 40)
+}
+
+// laGapAllowed: formats whose words legitimately contain bits that are neither opcode nor operand (confirmed by
+// reading the ISA manual), one reason each.
+var laGapAllowed = map[string]string{
+	"OpFormatType_1R_fcsr 0x380": "the fcsr field has five bits but only FCSR0..FCSR3 exist; regFCSR answers 0..3, the upper three bits are always zero",
+	"OpFormatType_fcsr_1R 0x1c":  "the fcsr field has five bits but only FCSR0..FCSR3 exist; regFCSR answers 0..3, the upper three bits are always zero",
 }
